@@ -150,7 +150,10 @@ pub fn run<S: Scheme>(scn: &Scenario, log: &EventLog) -> RunResult {
         let nontrivial = op_nontrivial(&sess, op);
         let wrong: Option<TraceSponge<S::F>> = match f.kind.as_str() {
             "proof-moved" | "stale-snapshot" => {
-                if f.target < snaps.len() && f.target != f.op && snaps[f.target].state_bytes() != snaps[f.op].state_bytes() { Some(snaps[f.target].fork()) } else { None }
+                // (no "the two states must differ" precondition: at least one accepted operation lies
+                // between two positions, and one that leaves the transcript where it was makes its
+                // proof valid at every later position - which is what this fault then observes)
+                if f.target < snaps.len() && f.target != f.op { Some(snaps[f.target].fork()) } else { None }
             }
             "sponge-absorb-dropped" | "sponge-absorb-altered" | "sponge-absorb-duplicated" => {
                 if f.op != 0 { None } else {
